@@ -79,6 +79,7 @@ func genC01(t *rapid.T, shape string) *c01Case {
 		return op
 	}
 	c.Janitor = rapid.IntRange(0, 2).Draw(t, "janitor") == 0
+	c.Opts.NoJanitor = c.Janitor // the harness-driven pass stands in for the member's single janitor goroutine
 	if shape == "seq" {
 		n := rapid.IntRange(20, 80).Draw(t, "steps")
 		var ops []c01Op
@@ -120,6 +121,22 @@ func c01Value(client, seq int, op c01Op, tableSize int) []byte {
 }
 
 var c01JanitorBudget int64
+
+var (
+	c01JanitorMu    sync.Mutex
+	c01JanitorLocks = map[string]*sync.Mutex{}
+)
+
+func c01JanitorLock(member string) *sync.Mutex {
+	c01JanitorMu.Lock()
+	defer c01JanitorMu.Unlock()
+	mu, ok := c01JanitorLocks[member]
+	if !ok {
+		mu = &sync.Mutex{}
+		c01JanitorLocks[member] = mu
+	}
+	return mu
+}
 
 func c01Exec(ctx context.Context, cl *vCluster, name string, keys, fillers []string, client, seq int, op c01Op, tableSize int) c01Event {
 	atomic.StoreInt64(&c01JanitorBudget, 1)
@@ -243,8 +260,18 @@ func runC01(c *c01Case) (v *vcommon.Violation, labels []string, nontrivial, inco
 				if m := cl.byName(args[0]); m != nil {
 					// like the real janitor the pass runs in its own goroutine: it may have to wait for fragment
 					// locks held by requests that in turn wait for this one (replication), so do not wait for long
+					// a member has ONE janitor goroutine: passes never overlap (two overlapping passes could
+					// remove each other's successor fragment, which the real worker cannot do)
 					done := make(chan struct{})
-					go func() { m.db.dmap.VerifJanitor(); close(done) }()
+					go func() {
+						defer close(done)
+						mu := c01JanitorLock(m.name)
+						if !mu.TryLock() {
+							return
+						}
+						defer mu.Unlock()
+						m.db.dmap.VerifJanitor()
+					}()
 					select {
 					case <-done:
 					case <-time.After(5 * time.Millisecond):
